@@ -28,17 +28,60 @@ package dtls
 //@ ensures unlocked: !held("Conn.lock")
 //@ end
 
-// [NOT CHECKED: the postconditions below discharge, but handleIncomingPacket calls six contracted callees whose
-//  preconditions (well-formedness after prepareIncomingPacket, record size, DTLS 1.2 environment) cannot be established
-//  from any precondition expressible here, so under the conditional rule nothing after those calls may be claimed.
-//  The repair 4b43560 is guarded by the demonstration known/C08_unparsable_epoch0_record_test.go.txt only.]
 // RFC 6347 4.1.2.7: an unprotected (epoch 0) record that cannot be parsed is dropped: no alert is queued and
-// the read loop gets no error (a fatal decode_error here let one spoofed datagram close the session).
-//   func Conn.handleIncomingPacket
-//   watch RecordLayer.Unmarshal Conn.prepareIncomingPacket
-//   requires args: wfConn(c) && !isNil(ctx)
-//   ensures c08-unparsable-unprotected-record-dropped: called("RecordLayer.Unmarshal") && retErr("RecordLayer.Unmarshal", 0) != nil
-//      && retAs("Conn.prepareIncomingPacket", 0, incomingPacketState{}).header != nil && retAs("Conn.prepareIncomingPacket", 0, incomingPacketState{}).header.Epoch == 0
-//      ==> result0.responseAlert == nil && result1 == nil
-//   ensures c08-empty-datagram-ignored: len(buf) == 0 ==> result0.responseAlert == nil && result1 == nil
-//   end
+// the read loop gets no error (a fatal decode_error here let one spoofed datagram close the session). The test is on the
+// epoch of the *record* (what was never authenticated), not on the connection's read epoch: after the handshake an
+// epoch-0 record is still unauthenticated.
+// Scope: an established DTLS 1.2 association (state12 with a cipher suite: what HandleCandidate/handleRecordContent need),
+// datagrams up to the inbound buffer size.
+// prepareIncomingPacket (header parse, replay check, decryption: C05/C06) is summarised: a prepared record has its parsed
+// header and its replay-commit closure, and is not larger than the inbound buffer (assumption: removing record
+// protection does not expand a record).
+//@ func Conn.prepareIncomingPacket
+//@ noinline
+//@ trusted
+//@ ensures c08-prepared-shape: result1 ==> result0.header != nil && result0.markPacketAsValid != nil && len(result0.buf) <= 8192
+// (assumption: receiving a record does not replace the state object, the cipher suite or the negotiated rrc flag of an
+// established DTLS 1.2 association; state.CommonState writes State12.Common only when it is nil)
+//@ ensures c08-prepare-keeps-association: ASSOC_KEPT(c)
+//@ end
+
+//@ define ASSOC_KEPT(c) (old(has12(c)) ==> S12(c).Common == old(S12(c).Common) && sameRef(S12(c).Common.CipherSuite, old(S12(c).Common.CipherSuite)) && S12(c).Common.RRCNegotiated == old(S12(c).Common.RRCNegotiated))
+
+//@ func Conn.bufferHandshakeRecord
+//@ loop #1: c08-assoc-kept: ASSOC_KEPT(c)
+//@ ensures c08-buffering-keeps-association: ASSOC_KEPT(c)
+// Buffering a handshake fragment never answers with an alert (unauthenticated fragments must not tear the association down).
+//@ ensures c08-buffering-raises-no-alert: result0.responseAlert == nil && result0.receivedACK == nil
+//@ end
+
+// Handling the content of one record (alert, change_cipher_spec, application data, ack, rrc) does not replace the
+// state object, the cipher suite or the negotiated rrc flag either (needed by the second HandleCandidate call).
+//@ func Conn.handleRecordContent
+//@ ensures c08-content-keeps-association: ASSOC_KEPT(c)
+//@ end
+
+//@ func Conn.handleChangeCipherSpecRecord
+//@ ensures c08-ccs-keeps-association: ASSOC_KEPT(c)
+//@ end
+//@ func Conn.processPacket
+//@ ensures c08-send-keeps-association: ASSOC_KEPT(c)
+//@ end
+//@ func returnRoutabilityConn.HandleRecord
+//@ ensures c08-rrc-keeps-association: ASSOC_KEPT(c.conn)
+//@ end
+
+//@ define PREP() retAs("Conn.prepareIncomingPacket", 0, incomingPacketState{})
+
+//@ func Conn.handleIncomingPacket
+//@ watch RecordLayer.Unmarshal Conn.prepareIncomingPacket Conn.handleRecordContent
+//@ requires args: wfConn(c) && ctx != nil && len(buf) <= 8192
+//@ requires established12: has12(c) && S12(c).Common.CipherSuite != nil
+//@ ensures c08-empty-datagram-ignored: len(buf) == 0 ==> result0.responseAlert == nil && result1 == nil
+//@ ensures c08-unparsable-unprotected-record-dropped: called("RecordLayer.Unmarshal") && retErr("RecordLayer.Unmarshal", 0) != nil
+//@    && PREP().header.Epoch == 0 ==> result0.responseAlert == nil && result1 == nil
+//@ ensures c08-unparsable-unprotected-record-not-processed: called("RecordLayer.Unmarshal") && retErr("RecordLayer.Unmarshal", 0) != nil ==> !called("Conn.handleRecordContent")
+//@ ensures c08-unparsable-protected-record-is-decode-error: called("RecordLayer.Unmarshal") && retErr("RecordLayer.Unmarshal", 0) != nil
+//@    && PREP().header.Epoch != 0 ==> result1 != nil && result0.responseAlert != nil && result0.responseAlert.Description == alert.DecodeError
+//@ ensures c08-refused-by-prepare-is-silent: called("Conn.prepareIncomingPacket") && !retBool("Conn.prepareIncomingPacket", 1) ==> result0.responseAlert == nil && result1 == nil && !called("RecordLayer.Unmarshal")
+//@ end
